@@ -23,7 +23,7 @@ Theorem pvassign_overload_choice :
          Gen_PvAssignTable.pvassign_table.
 Proof.
   split; [reflexivity|].
-  repeat (constructor; [simpl; split; [reflexivity|split; intros H; (reflexivity || discriminate)]|]). constructor.
+  repeat (constructor; [cbv beta iota zeta; split; [reflexivity|split; intros H; (reflexivity || discriminate)]|]). constructor.
 Qed.
 
 (* ---------------------------------------------------------------- failed copy construction: no double destruction *)
